@@ -265,7 +265,7 @@ fn cli_check(c: &StrCase) -> CaseReport {
         return CaseReport::discard(s, "NUL cannot be passed as an argument");
     }
     let any = std::env::current_exe().unwrap().parent().unwrap().join("any");
-    let xdg = format!("{}/build/xdg/C11-{}", crate::runner::VERIF, std::process::id());
+    let xdg = format!("{}/build/xdg/C11-{}", crate::runner::verif_root(), std::process::id());
     let mut cmd = Command::new(&any);
     cmd.env("XDG_DATA_HOME", &xdg).env("TERM", "dumb").env("NO_COLOR", "1").env_remove("RUST_LOG").arg("--").arg(s);
     watch_begin(s);
@@ -307,7 +307,7 @@ pub fn run_check(ctx: &Ctx, child: bool) {
     ctx.run_gen("any-string", || any::<String>().prop_map(|s| StrCase { input: sanitize(&s) }), n / 8, |c| check_str(db, &c.input), |c| to_json(c));
     if !child {
         // sample through the real binary (built with debug assertions)
-        let xdg = format!("{}/build/xdg/C11-{}", crate::runner::VERIF, std::process::id());
+        let xdg = format!("{}/build/xdg/C11-{}", crate::runner::verif_root(), std::process::id());
         let _ = std::fs::create_dir_all(&xdg);
         // build the on-disk index once so the parallel spawns only reopen it
         let _ = cli_check(&StrCase { input: "1".into() });
